@@ -69,6 +69,10 @@ func (t *ClientTransport) Handshake() (hr *parser.HandshakeResponse, err error) 
 	if err != nil {
 		return
 	}
+	// The client has no configured limit for incoming messages.
+	// Without this, the default limit (32 KiB) of the WebSocket library
+	// closes the connection when the server sends a larger message.
+	t.conn.SetReadLimit(-1)
 
 	// If sid is set this means that we have already connected and
 	// we're using this transport for upgrade purposes.
